@@ -83,7 +83,8 @@ def main():
         open(os.path.join(root, '.built'), 'w').write('seeded')
         for d in os.listdir(main_root):
             if d.startswith('home-') and d != 'home-build':
-                sh(['cp', '-a', os.path.join(main_root, d),
+                # hard links (the JIT cache is large and append-only)
+                sh(['cp', '-al', os.path.join(main_root, d),
                     os.path.join(root, d)])
     env = dict(os.environ, VERIF_REPO=src, VERIF_BUILD_ROOT=root)
     r = sh([PY, '-m', 'vlib.build'], cwd=VERIF, env=env)
